@@ -326,7 +326,7 @@ _add(Prop(
                "NoiseSimplex::next_sample}", "dasp_signal::ops::f64::{sin, floor}"],
     bounds="one frame from ANY stored phase in [0,1) (hook Phase::verif_from_state) and any finite step >= 0; saw, square "
            "formulas and sine's call structure at every phase, sine's argument 2*pi*p at 8 concrete phases (every phase: "
-           "thorough); ConstHz step at 6 concrete (hz, rate) pairs (a symbolic pair - one f64 division on each side of the comparison - did not finish in 3000 s); Hz pulls: 3 frames; noise: range "
+           "thorough); ConstHz step at 6 concrete (hz, rate) pairs (a symbolic pair - one f64 division on each side of the comparison - did not finish in 3000 s); Hz pulls: 3 frames, also from a frequency signal that reports itself exhausted from any point on; noise: range "
            "and no-panic for EVERY u64 seed (2 frames), clone/restart/shifted-seed agreement and the hash value at 6 "
            "concrete seeds incl. u64::MAX; simplex: any stored phase in [0, 65536): finite, in-bounds, "
            "|out| <= 2 for every phase and |out| <= 1 at 12 concrete phases",
@@ -480,7 +480,7 @@ _add(Prop(
                "dasp_ring_buffer::Fixed::{push, index, set_first, iter_mut, len} underneath",
                "dasp_signal::interpolate::Converter::next driving Sinc at ratio 1"],
     bounds="depth 1, 2, 3; ANY ring offset and any number (0..=depth+1) of pushed frames, i.e. every priming stage; frames "
-           "f64 on the 2^-15 grid in [-1,1] ([i16;2] for the integer-format harness); index safety and reset at any x in "
+           "f64 on the 2^-15 grid in [-1,1] (tap structure and ratio-1 transparency: 2^-13 grid in [-4,4), i.e. with float headroom; [i16;2] and i32 for the integer-format harnesses); index safety and reset at any x in "
            "[0,1); tap/weight structure (depth 1 in the quick tier, depths 2 and 3 in the thorough tier: 400-700 s each) at x in {0, 0.25} "
            "with sin/cos replaced by power-of-two stand-ins, from the states reached by 0, d, 2d+1 pushes (transparency: 0, 1, d, d+1, 2d+1 pushes) into a fresh ring (symbolic frame values); transparency at x = 0 "
            "(ratio exactly 1) with libm's sin/cos values tabulated at the kernel's concrete arguments, directly and through "
